@@ -5,6 +5,7 @@ import DracoProofs.SeqGeometry
 import DracoProofs.SeqRows
 import DracoProofs.SpecCheck
 import DracoProofs.OctaFloat
+import DracoProofs.SeqScheme
 /-
   C01 — encode/decode round trip, composed and machine checked for the SEQUENTIAL methods
   (`POINT_CLOUD_SEQUENTIAL_ENCODING`, `MESH_SEQUENTIAL_ENCODING`), against the decoder model
@@ -480,12 +481,12 @@ theorem seq_skip_transform_applies (S : List Nat) (ch : Choices) (g : Geometry)
   intro s d
   obtain ⟨encs, hf⟩ := encodeGeometry_full ch g md opts bs henc
   obtain ⟨e, _, he⟩ := encodeAttribute_of_index ch g md opts bs encs hf i a hi
-  have f := attFacts ch opts g.numPoints i a e hok.points (hok.atts i a hi) he
-  obtain ⟨hty', _⟩ := portableOf_eq ch opts g.numPoints i a e he
+  have f := attFacts _ opts g.numPoints i a e hok.points (hok.atts i a hi) he
+  obtain ⟨hty', _⟩ := portableOf_eq _ opts g.numPoints i a e he
   have hs' : s = expectedAttributeSkip S g.numPoints a e :=
-    (expectedAttributeSkip_eq S ch opts g.numPoints i a e he).symm
+    (expectedAttributeSkip_eq S _ opts g.numPoints i a e he).symm
   have hd' : d = expectedAttribute g.numPoints a e :=
-    (expectedAttribute_eq ch opts g.numPoints i a e he).symm
+    (expectedAttribute_eq _ opts g.numPoints i a e he).symm
   have hne : e.encType ≠ 0 := by rw [hty']; exact hty
   refine ⟨by rw [hs', hd']; exact applySkippedTransform_spec S g.numPoints a e f hne hs, ?_⟩
   have hne' : (e.encType != 0) = true := by simpa using hne
@@ -675,5 +676,148 @@ example : iabs (@Octa.floatVecRoundG ℚ exactDoubleOps 7 (1 / 3) (-2 / 3) (2 / 
 theorem octaEntryOK_of_octaRowOK (q : Nat) (t : OctaT) (ht : Octa.init q = some t) (row : Bytes)
     (h : octaRowOK t row = true) : octaEntryOK t (octaRow t row) = true :=
   octaEntryOK_of_rowOK t (Octa.init_wf ht).1 row h
+
+/-! ## 9. the prediction scheme is a function of geometry and options
+
+  `encodeGeometry` computes the results of `SelectPredictionMethod` itself (`selectPredictionMethod`,
+  `Choices.resolved`: speed thresholds, geometry type, attribute types, the position attribute's type and
+  quantization, `GetPredictionMethodFromOptions`, the normal encoder's forced schemes, the fallback of every
+  mesh scheme to the delta coder in the sequential encoders, the range check of fix 8ef32e0).  Only the
+  `double`-driven decisions remain choices: tagged/raw symbol scheme and the rANS table rounding. -/
+
+/-- the whole-stream encoder does not look at `ch.selectPrediction`: two choice records that agree on the
+    `double`-driven decisions give the same stream -/
+theorem encodeGeometry_ignores_selectPrediction (ch1 ch2 : Choices) (g : Geometry)
+    (md : Option GeometryMetadata) (opts : EncOpts)
+    (ho : ch1.oracle = ch2.oracle) (ha : ch1.attScheme = ch2.attScheme) (hc : ch1.connScheme = ch2.connScheme) :
+    encodeGeometry ch1 g md opts = encodeGeometry ch2 g md opts := by
+  unfold encodeGeometry encodeGeometryFull
+  rw [resolved_congr ch1 ch2 g opts ho ha hc]
+
+example : encodeGeometry ⟨ProbOracle.exact, fun _ => 0, fun _ => .tagged, .tagged⟩ samplePC none sampleOpts =
+    encodeGeometry ⟨ProbOracle.exact, fun _ => -2, fun _ => .tagged, .tagged⟩ samplePC none sampleOpts :=
+  encodeGeometry_ignores_selectPrediction _ _ _ _ _ rfl rfl rfl
+
+/-- **The prediction scheme bytes in the stream are the ones the option model computes**, whatever the
+    `double`-driven choices: for every attribute of a successfully encoded geometry the encoder type is
+    `encoderType a (opts.att i)` and the attribute's value block starts with `schemeBytesOf g opts i a`
+    (method byte, transform-type byte) — a function of geometry and options alone.  In particular two runs
+    (any choices `ch1`, `ch2`) on equal geometry and options choose equally (C06: no hidden state enters
+    the decision). -/
+theorem seq_encoder_scheme_is_function_of_options (ch1 ch2 : Choices) (g : Geometry)
+    (md : Option GeometryMetadata) (opts : EncOpts) (bs1 bs2 : Bytes) (encs1 encs2 : List AttEnc)
+    (h1 : encodeGeometryFull ch1 g md opts = some (bs1, encs1))
+    (h2 : encodeGeometryFull ch2 g md opts = some (bs2, encs2))
+    (i : Nat) (a : Attribute) (hi : g.atts[i]? = some a) :
+    ∃ e1 e2 r1 r2, encs1[i]? = some e1 ∧ encs2[i]? = some e2 ∧
+      e1.encType = encoderType a (opts.att i) ∧ e2.encType = encoderType a (opts.att i) ∧
+      e1.valueBytes = schemeBytesOf g opts i a ++ r1 ∧ e2.valueBytes = schemeBytesOf g opts i a ++ r2 := by
+  obtain ⟨e1, he1, hx1⟩ := encodeAttribute_of_index ch1 g md opts bs1 encs1 h1 i a hi
+  obtain ⟨e2, he2, hx2⟩ := encodeAttribute_of_index ch2 g md opts bs2 encs2 h2 i a hi
+  obtain ⟨t1, r1, v1⟩ := encodeAttribute_scheme ch1 g opts i a e1 hx1
+  obtain ⟨t2, r2, v2⟩ := encodeAttribute_scheme ch2 g opts i a e2 hx2
+  exact ⟨e1, e2, r1, r2, he1, he2, t1, t2, v1, v2⟩
+
+/-- non-vacuity on `samplePC`: attribute 1 (int16, default options) gets delta + wrap: bytes 0, 1;
+    attribute 0 goes through the generic encoder: no scheme bytes -/
+example : schemeBytesOf samplePC sampleOpts 1 (samplePC.atts.getD 1 default) = [0, 1] ∧
+    schemeBytesOf samplePC sampleOpts 0 (samplePC.atts.getD 0 default) = [] ∧
+    schemeBytesOf samplePC { sampleOpts with atts := [{}, { prediction := some (-2) }] } 1
+      (samplePC.atts.getD 1 default) = [254] := by decide +kernel
+
+/-! ## 10. the option store (`DracoModel/Options.lean`; tied to `Options` / `DracoOptions<int>` /
+    `EncoderOptions::GetSpeed` by the driver op `options`) -/
+
+open Opt in
+/-- `GetInt` returns what the last `SetInt` of that name stored; other names are untouched -/
+theorem options_get_set_int (o : Options) (n m : String) (v w d : Int) :
+    (o.setInt n v).getInt n d = v ∧ ((o.setInt n v).setInt n w).getInt n d = w ∧
+      (n ≠ m → (o.setInt m v).getInt n d = o.getInt n d) ∧ (o.setInt n v).isSet n = true := by
+  refine ⟨?_, ?_, ?_, ?_⟩
+  · simp [Options.setInt, Options.getInt, find_set_self]
+  · simp [Options.setInt, Options.getInt, find_set_self]
+  · intro h; simp [Options.setInt, Options.getInt, find_set_other _ _ _ _ h]
+  · simp [Options.setInt, Options.isSet, find_set_self]
+
+open Opt in
+example : ((({} : Options).setInt "a" 3).setInt "b" 4).getInt "a" 0 = 3 := by decide +kernel
+
+open Opt in
+/-- `GetFloat` / `GetVector<float>` return what `SetFloat` / `SetVector` stored (the model's reading of fix
+    1b5fb06: `%.9g` text restores the float32 exactly): the first `min(num_dims, stored)` elements overwrite
+    the front of the output vector, the rest of it is left alone -/
+theorem options_get_set_float (o : Options) (n : String) (b d : Nat) (bs out : List Nat) (k : Nat) :
+    (o.setFloat n b).getFloat n d = b ∧
+      (o.setFloatVector n bs).getFloatVector n k out = some (bs.take k ++ out.drop (bs.take k).length) ∧
+      (o.isSet n = false → o.getFloatVector n k out = none) := by
+  refine ⟨?_, ?_, ?_⟩
+  · simp [Options.setFloat, Options.getFloat, find_set_self]
+  · simp [Options.setFloatVector, Options.getFloatVector, find_set_self]
+  · intro h
+    unfold Options.isSet at h
+    unfold Options.getFloatVector
+    cases hf : o.find n with
+    | none => rfl
+    | some v => rw [hf] at h; simp at h
+
+open Opt in
+example : (({} : Options).setFloatVector "quantization_origin" [5, 6]).getFloatVector "quantization_origin" 3 [0, 0, 0]
+    = some [5, 6, 0] := by decide +kernel
+
+open Opt in
+/-- `GetBool` as written: −1 means "not set" even when it was stored -/
+theorem options_get_bool (o : Options) (n : String) (b d : Bool) :
+    (o.setBool n b).getBool n d = b ∧ (o.setInt n (-1)).getBool n d = d := by
+  constructor
+  · cases b <;> simp [Options.setBool, Options.getBool, Options.getInt, find_set_self]
+  · simp [Options.setInt, Options.getBool, Options.getInt, find_set_self]
+
+open Opt in
+example : (({} : Options).setInt "x" (-1)).getBool "x" true = true := by decide +kernel
+
+open Opt in
+/-- `DracoOptions::GetAttributeInt`: the attribute's own option, else the GLOBAL option, else the default;
+    but `IsAttributeOptionSet` (as written) does not fall back to the global options once the attribute has
+    any option of its own -/
+theorem draco_options_attribute_resolution (o : DracoOptions) (key : Nat) (n m : String) (v w d : Int)
+    (hnm : n ≠ m) :
+    (o.setAttributeInt key n v).getAttributeInt key n d = v ∧
+      (o.findAtt key = none → o.getAttributeInt key n d = o.global.getInt n d) ∧
+      (o.findAtt key = none →
+        ((o.setGlobalInt n w).setAttributeInt key m v).getAttributeInt key n d = w ∧
+        ((o.setGlobalInt n w).setAttributeInt key m v).isAttributeOptionSet key n = false ∧
+        (o.setGlobalInt n w).isAttributeOptionSet key n = true) := by
+  have hfind : ∀ (o' : DracoOptions) (f : Options → Options),
+      (o'.modifyAtt key f).findAtt key = some (f ((o'.findAtt key).getD {})) := by
+    intro o' f; simp [DracoOptions.modifyAtt, DracoOptions.findAtt]
+  refine ⟨?_, ?_, ?_⟩
+  · simp only [DracoOptions.setAttributeInt, DracoOptions.getAttributeInt, hfind]
+    simp [Options.setInt, Options.isSet, Options.getInt, find_set_self]
+  · intro h; simp [DracoOptions.getAttributeInt, h]
+  · intro h
+    have hg : (o.setGlobalInt n w).findAtt key = none := h
+    have hset : (({} : Options).setInt m v).isSet n = false := by
+      unfold Options.isSet Options.setInt
+      rw [find_set_other _ n m _ hnm]
+      rfl
+    have hglob : (o.setGlobalInt n w).global.getInt n d = w := by
+      simp [DracoOptions.setGlobalInt, Options.setInt, Options.getInt, find_set_self]
+    have hglobal' : ((o.setGlobalInt n w).modifyAtt key (·.setInt m v)).global = (o.setGlobalInt n w).global := rfl
+    refine ⟨?_, ?_, ?_⟩
+    · unfold DracoOptions.setAttributeInt DracoOptions.getAttributeInt
+      rw [hfind, hg]
+      simp only [Option.getD_none, hset, Bool.false_eq_true, if_false]
+      rw [hglobal', hglob]
+    · unfold DracoOptions.setAttributeInt DracoOptions.isAttributeOptionSet
+      rw [hfind, hg]
+      exact hset
+    · unfold DracoOptions.isAttributeOptionSet
+      rw [hg]
+      simp [DracoOptions.setGlobalInt, Options.setInt, Options.isSet, find_set_self]
+
+open Opt in
+/-- non-vacuity: global quantization bits reach an attribute that has only a prediction scheme of its own -/
+example : ((({} : DracoOptions).setGlobalInt "quantization_bits" 11).setAttributeInt 2 "prediction_scheme" 0).getAttributeInt
+    2 "quantization_bits" (-1) = 11 := by decide +kernel
 
 end Draco.C01
